@@ -1073,6 +1073,217 @@ def run_tie(ctx, exe, mexe, cases, idxs):
     ctx.cov["correspondence"].update({"container_tie_cases": len(verdict), "container_tie_mismatches": bad})
 
 
+# ------------------------------------------------------------------------------------------------
+# reused encoder handles (several encodings on one lzma_stream without lzma_end) and several files in one xz process
+# ------------------------------------------------------------------------------------------------
+
+# Fraction of the relational budget that runs as 2nd/3rd... encoding on a reused handle (override: VERIF_C02_REUSE=0.5).
+REUSE_FRACTION = float(os.environ.get("VERIF_C02_REUSE", "0.3"))
+
+
+def gen_reuse(ctx, n_rel):
+    """Cases for the `reuse` op: 2-4 encodings on ONE lzma_stream; the earlier ones finished, abandoned or failed."""
+    rng, quick = ctx.rng, ctx.quick()
+    cases = []
+    for _ in range(max(8, int(n_rel * REUSE_FRACTION))):
+        n = rng.choice((rng.randrange(0, 40), rng.randrange(40, 5000), rng.randrange(5000, 70000 if quick else 300000)))
+        data = gen_data(rng, n, rng.choice((0, 2, 3, 3)))
+        same = rng.random() < 0.7
+        kind0 = rng.choice(("st", "st", "st", "easy", "easy", "mt", "alone", "raw"))
+        k = rng.choice((2, 2, 3, 3, 4))
+        streams, specs = [], []
+        for j in range(k):
+            kind = kind0 if same or j == 0 else rng.choice(("st", "easy", "mt", "alone", "raw"))
+            if kind == "st" and kind0 in ("st", "easy") and same and rng.random() < 0.3:
+                kind = "easy"                      # lzma_easy_encoder and lzma_stream_encoder share the coder
+            end = "f" if j == k - 1 else rng.choice(("f", "f", "f", "a", "e"))
+            check = rng.choice((0, 1, 4, 10))
+            pct = rng.choice((100, 100, 50, 7, 0)) if end == "f" else rng.choice((100, 60, 10))
+            fm, threads, bs = 0, 1, 0
+            if kind == "easy":
+                preset = rng.choice((0, 1, 2, 3, 6)) | ((1 << 31) if rng.random() < 0.1 else 0)
+                toks, ids = ["E:%d" % preset], [L.LZMA2]
+            elif kind == "alone":
+                toks, ids = [rand_lzma_tok(rng, "L1", False)], [L.LZMA1]
+            else:
+                toks = rand_rel_chain(rng, False)
+                if kind == "mt":
+                    toks[-1] = ":".join(toks[-1].split(":")[:2] + [str(rng.choice((4096, 65536, 1 << 20)))] + toks[-1].split(":")[3:])
+                    threads, bs, fm = rng.choice((1, 2, 3)), rng.choice((0, 4096, 65536)), rng.choice((0, 0, 2, 3))
+                elif kind == "st":
+                    pure = all(t.startswith(("L2", "DELTA")) for t in toks)
+                    fm = rng.choice((0, 0, 1, 2, 3)) if pure else rng.choice((0, 0, 2, 3))
+                ids = chain_ids(toks)
+            specs.append("%s:%d:%d:%d:%d:%s:%d %s" % (kind, check, threads, bs, fm, end, pct, " ".join(toks)))
+            streams.append(dict(kind=kind, end=end, check=check, ids=ids, data=data[:len(data) * pct // 100]))
+        line = "reuse %d %s %s" % (rng.getrandbits(30), hexs(data), " / ".join(specs))
+        cases.append(dict(line=line, streams=streams, weight=k * n + 3000))
+    return cases
+
+
+def judge_stream_bytes(st, out, rt):
+    """Judges one finished encoding with the Python oracle (+ system liblzma). -> (reason or None, model op or None, expected model answer)."""
+    kind, data, check = st["kind"], st["data"], st["check"]
+    if rt != "ok":
+        return "the C decoder does not give the input back: " + rt, None, None
+    if kind == "alone":
+        s, summ = L.parse_alone(out)
+        if s != "ok" or not summ.endswith("usize=%d" % U64):
+            return ".lzma header invalid: " + summ, None, None
+        w = second_decoder(out, data, "alone")
+        return (w, None, None) if w else (None, "valalone " + hexs(out[:64]), summ)
+    if kind == "raw":
+        try:
+            end, usum, _ = L.walk_chunks(out, 0, (data, 0) if len(st["ids"]) == 1 else None)
+        except L.Bad as e:
+            return "raw LZMA2 stream invalid: %s" % e, None, None
+        if end != len(out) or usum != len(data):
+            return "raw LZMA2 chunk sizes do not tile the output (%d/%d, %d/%d)" % (end, len(out), usum, len(data)), None, None
+        return None, None, None
+    s, summ, blocks = L.parse_xz(out, check, data)
+    if s != "ok":
+        return "Stream is not valid / metadata untruthful: " + summ, None, None
+    if any(not chain_matches(b, st["ids"]) for b in blocks):
+        return "Block Header filter chain differs from the configuration: " + summ, None, None
+    w = second_decoder(out, data, "xz")
+    return (w, None, None) if w else (None, "valxz %d %s %s" % (check, hexs(data), hexs(out)), summ)
+
+
+def run_reuse(ctx, exe, mexe, model_ok, n_rel):
+    cases = gen_reuse(ctx, n_rel)
+    lines = [c["line"] for c in cases]
+    outs, fail = run_parts(exe, lines, [c["weight"] for c in cases])
+    if fail is not None:
+        find_abort(ctx, exe, lines, fail)
+        return False
+    bad, vlines, vexp, vcase = 0, [], [], []
+    for c, o in zip(cases, outs):
+        toks = (o or "").split(" ")
+        ctx.case(c["line"][:40] + str(hash(c["line"])), nontrivial=True)
+        if len(toks) != len(c["streams"]):
+            ctx.obligation_broken("harness answered a reuse op with the wrong number of encodings", (o or "")[:300])
+            continue
+        for j, (st, tk) in enumerate(zip(c["streams"], toks)):
+            f = tk.split(":", 4)
+            pos = "1st" if j == 0 else "2nd+"
+            ctx.count("reuse:%s:%s:%s" % (st["kind"], st["end"], pos))
+            if j > 0:
+                ctx.count("reuse-after:" + c["streams"][j - 1]["end"] + ("-same-coder" if c["streams"][j - 1]["kind"] == st["kind"] else "-other-coder"))
+            why = None
+            if f[1] != "0":
+                why = "encoder initialisation on the %s handle returned %s" % ("fresh" if j == 0 else "reused", f[1])
+            elif st["end"] == "f":
+                if f[2] != "0":
+                    why = "encoder returned lzma_ret %s" % f[2]
+                else:
+                    why, vop, exp = judge_stream_bytes(st, unhex(f[3]), f[4])
+                    if why is None and vop is not None:
+                        vlines.append(vop); vexp.append(exp); vcase.append((c, j))
+            if why:
+                bad += 1
+                if bad <= 4:
+                    ctx.violation("reuse-" + st["kind"], {"kind": "encoding #%d on a reused lzma_stream (%s, previous encodings: %s): %s" % (
+                        j + 1, st["kind"], ",".join(x["kind"] + ":" + x["end"] for x in c["streams"][:j]) or "none", why),
+                        "op": c["line"], "stream_index": j, "how_to_replay": "echo '<op>' | .cache/harness-asan/c02"}, True)
+    mm = 0
+    if model_ok and vlines:
+        v_out, vfail = run_parts(mexe, vlines, [len(v) for v in vlines])
+        if vfail is not None:
+            ctx.obligation_broken("model driver xzm_c02 failed on a validation op (reuse)", str(vfail[2])[:2000])
+        else:
+            for vo, exp, (c, j) in zip(v_out, vexp, vcase):
+                if vo != exp:
+                    mm += 1
+                    if mm <= 3:
+                        if (vo or "").startswith("bad "):
+                            ctx.violation("reuse-model", {"kind": "the Lean structural validator rejects encoding #%d of a reused handle: %s" % (j + 1, vo),
+                                                          "op": c["line"], "stream_index": j, "python_parser": exp}, True)
+                        else:
+                            ctx.obligation_broken("correspondence C02: Lean validator and Python parser measure different structures (reuse)",
+                                                  json.dumps({"op": c["line"][:2000], "lean": vo, "python": exp}))
+    ctx.cov["correspondence"].update({"reuse_cases": len(cases), "reuse_encodings_validated": len(vlines), "reuse_failures": bad,
+                                      "reuse_model_vs_python_mismatches": mm})
+    return True
+
+
+def run_cli(ctx, mexe, model_ok):
+    """Several files compressed by ONE xz process (`xz -T1 a b c`, also -T2 and --format=lzma): every output file must be a
+    valid container that decodes to its input (Python parser, system liblzma, Lean validator)."""
+    rng, quick = ctx.rng, ctx.quick()
+    ok, log, bd = vlib.c_build("rel", targets=["xz"])
+    xz = os.path.join(bd, "xz")
+    if not ok or not os.path.exists(xz):
+        ctx.obligation_broken("stage B: the xz tool does not build", log)
+        return
+    import shutil, tempfile
+    base = os.path.join(vlib.CACHE, "c02-cli")
+    os.makedirs(base, exist_ok=True)
+    bad, vlines, vexp, vwhat = 0, [], [], []
+    for inv in range(5 if quick else 16):
+        d = tempfile.mkdtemp(dir=base)
+        try:
+            # the first two invocations are always single-threaded .xz (one encoder handle reused for every file)
+            fmt = "xz" if inv < 2 else rng.choice(("xz", "xz", "xz", "lzma"))
+            threads = 1 if inv < 2 else (rng.choice((1, 1, 2, 0)) if fmt == "xz" else 1)
+            check = rng.choice(("none", "crc32", "crc64", "sha256"))
+            preset = rng.choice((0, 1, 3, 6))
+            files = []
+            for k in range(rng.choice((3, 3, 4)) if inv < 2 else rng.choice((2, 3, 4))):
+                data = gen_data(rng, rng.choice((0, 1, rng.randrange(2, 3000), rng.randrange(3000, 150000))), rng.choice((0, 2, 3)))
+                nm = os.path.join(d, "f%d" % k)
+                with open(nm, "wb") as f:
+                    f.write(data)
+                files.append((nm, data))
+            cmd = [xz, "-k", "-T%d" % threads, "-%d" % preset, "--format=" + fmt] + (["--check=" + check] if fmt == "xz" else []) + [nm for nm, _ in files]
+            rc, out = vlib.sh(cmd, timeout=600)
+            desc = " ".join(os.path.basename(x) if x.startswith(d) else x for x in cmd[1:])
+            ctx.count("cli:%s:T%d" % (fmt, threads))
+            if rc != 0:
+                bad += 1
+                ctx.violation("cli", {"kind": "xz exited with %d compressing several files in one process" % rc, "cmd": desc, "output": out[-1000:],
+                                      "files_hex": [hexs(x)[:20000] for _, x in files]}, True)
+                continue
+            cid = {"none": 0, "crc32": 1, "crc64": 4, "sha256": 10}[check]
+            for k, (nm, data) in enumerate(files):
+                ctx.case("cli" + desc + str(k) + str(len(data)), nontrivial=True)
+                try:
+                    comp = open(nm + (".xz" if fmt == "xz" else ".lzma"), "rb").read()
+                except OSError:
+                    comp = None
+                why = None
+                if comp is None:
+                    why = "output file missing"
+                elif fmt == "xz":
+                    s, summ, blocks = L.parse_xz(comp, cid, data)
+                    why = None if s == "ok" else "output file is not a valid .xz Stream: " + summ
+                    why = why or second_decoder(comp, data, "xz")
+                    if why is None:
+                        vlines.append("valxz %d %s %s" % (cid, hexs(data), hexs(comp))); vexp.append(summ); vwhat.append((desc, k))
+                else:
+                    s, summ = L.parse_alone(comp)
+                    why = None if s == "ok" else ".lzma header invalid: " + summ
+                    why = why or second_decoder(comp, data, "alone")
+                if why:
+                    bad += 1
+                    if bad <= 3:
+                        ctx.violation("cli", {"kind": "file #%d written by one xz process (%s): %s" % (k + 1, desc, why), "cmd": desc,
+                                              "files_hex": [hexs(x)[:200000] for _, x in files], "output_head": (comp or b"")[:64].hex(),
+                                              "how_to_replay": "write the files, run xz with the arguments of `cmd`, parse file #k+1 with tools/c02lib.py parse_xz"}, True)
+        finally:
+            shutil.rmtree(d, ignore_errors=True)
+    mm = 0
+    if model_ok and vlines:
+        v_out, vfail = run_parts(mexe, vlines, [len(v) for v in vlines])
+        if vfail is None:
+            for vo, exp, (desc, k) in zip(v_out, vexp, vwhat):
+                if vo != exp:
+                    mm += 1
+                    if mm <= 2:
+                        ctx.violation("cli-model", {"kind": "the Lean structural validator rejects file #%d written by `xz %s`: %s" % (k + 1, desc, vo),
+                                                    "python_parser": exp}, (vo or "").startswith("bad "))
+    ctx.cov["correspondence"].update({"cli_files_validated": len(vlines), "cli_failures": bad})
+
+
 def run(ctx):
     ctx.cov["rule"] = ("functional: op lines for every L0-L2 codec generated from the seeded PRNG (boundary VLI values 2^(7k)±2, every check ID, "
                        "every dictionary/lclppb byte, valid fields built by an independent Python encoder, their byte/bit mutations with and "
@@ -1269,6 +1480,11 @@ def run(ctx):
     if model_ok and vidx:
         run_tie(ctx, exe, mexe, cases, vidx)
 
+    # ---------------- K (reused handles; several files in one xz process) ----------------
+    if not run_reuse(ctx, exe, mexe, model_ok, len(cases)):
+        return "proof"
+    run_cli(ctx, mexe, model_ok)
+
     # ---------------- K (bound guarantee) ----------------
     blines = gen_bound_cases(ctx)
     b_out, fail = run_parts(exe, blines, [int(b.split()[3]) + 50000 for b in blines])
@@ -1330,6 +1546,22 @@ def replay(ctx, path):
         bad = judge_func(r["op"], out[0])
     elif op == "xbound":
         bad = None if (t[0] == "0" and t[-1] == "ok") else "ret=%s" % t[0]
+    elif op == "reuse":
+        toks = r["op"].split()
+        data = unhex(toks[2])
+        specs = " ".join(toks[3:]).split(" / ")
+        for j, (sp, tk) in enumerate(zip(specs, t)):
+            f, q = tk.split(":", 4), sp.split()[0].split(":")
+            if q[5] != "f":
+                continue
+            if f[1] != "0" or f[2] != "0" or f[4] != "ok":
+                bad = "encoding #%d: init=%s ret=%s rt=%s" % (j + 1, f[1], f[2], f[4])
+                break
+            if q[0] in ("st", "easy", "mt"):
+                st_, summ, _ = L.parse_xz(unhex(f[3]), int(q[1]), data[:len(data) * int(q[6]) // 100])
+                if st_ != "ok":
+                    bad = "encoding #%d: %s" % (j + 1, summ)
+                    break
     elif op in ("easy", "sbe", "strm", "mt", "upd"):
         toks = r["op"].split()
         hexpos = {"easy": 4, "sbe": 3, "strm": 4, "mt": 6, "upd": 7}[op]
